@@ -60,10 +60,17 @@ theorem specialAttrs_rel (ext : Ext) (tag : List Char) (as as' : List AttrSt)
 
 /-- after the special cases every attribute still carries its token (so its template flag) and its name, or the name
     `charset` (`<meta http-equiv=content-type content="text/html;charset=utf-8">`) -/
-theorem specialAttrs_names (ext : Ext) (tag : List Char) (attrs : List Attr) (as' : List AttrSt)
-    (h : specialAttrs ext tag (attrs.map AttrSt.ofAttr) = .ok as') :
+theorem specialAttrsOpt_rel (o : Opts) (ext : Ext) (tag : List Char) (as as' : List AttrSt)
+    (h : specialAttrsOpt o ext tag as = .ok as') : Rel as as' := by
+  unfold specialAttrsOpt at h
+  split at h
+  · cases h; exact Rel.refl _
+  · exact specialAttrs_rel ext tag as as' h
+
+theorem specialAttrs_names (o : Opts) (ext : Ext) (tag : List Char) (attrs : List Attr) (as' : List AttrSt)
+    (h : specialAttrsOpt o ext tag (attrs.map AttrSt.ofAttr) = .ok as') :
     ∀ y ∈ as', ∃ a ∈ attrs, y.a = a ∧ (y.name = a.name ∨ y.name = s "charset") := by
-  obtain ⟨hl, hr⟩ := specialAttrs_rel ext tag _ _ h
+  obtain ⟨hl, hr⟩ := specialAttrsOpt_rel o ext tag _ _ h
   intro y hy
   obtain ⟨i, hi, e⟩ := List.getElem_of_mem hy
   have hi' : i < (attrs.map AttrSt.ofAttr).length := by rw [← hl]; exact hi
@@ -93,7 +100,7 @@ theorem html_start_tag_step (o : Opts) (ext : Ext) (sub : Sub) (st st' : St) (na
       runS m out = (emitTag m { isEnd := false, name := name, attrs := ws.map WAttr.read } false).1 := by
   rcases step_startTag_shape o ext sub st name attrs rest st' out h with e | ⟨as0, rawTag, aout, mt, hsp, hw, e⟩
   · exact absurd e hne
-  · have hn := specialAttrs_names ext name attrs as0 hsp
+  · have hn := specialAttrs_names o ext name attrs as0 hsp
     have h1 : ∀ x ∈ as0, x.keep = true → x.a.tmpl = false := by
       intro x hx _
       obtain ⟨a, hmem, ea, _⟩ := hn x hx
